@@ -459,6 +459,7 @@ impl<'a> Gen<'a> {
                     entries.push(Entry::Rule(self.gen_rule(error_type, &names, named)));
                 }
                 sets.push(RuleSet {
+                    pre_lets: vec![],
                     name: name.clone(),
                     entries,
                 });
@@ -733,6 +734,9 @@ fn fresh_name(spec: &Spec) -> String {
         used.insert(n.clone());
     }
     for s in &spec.sets {
+        for (n, _) in &s.pre_lets {
+            used.insert(n.clone());
+        }
         for e in &s.entries {
             if let Entry::Let(n, _) = e {
                 used.insert(n.clone());
@@ -1120,16 +1124,24 @@ fn gen_scope_spec(g: &mut Gen) -> Spec {
         let names: Vec<String> = ["Init", "A", "B", "C"].iter().take(n_sets).map(|s| s.to_string()).collect();
         let top_re = g.gen_nonnull(1);
         let mut sets = vec![];
+        // from rule set `cut` on, `x` is a TOP-LEVEL let written between two rule sets (visible only
+        // in later rule sets); before it, `x` is local to each rule set
+        let cut = if g.rng.chance(1, 2) { g.rng.range(1, n_sets) } else { n_sets + 1 };
         for (i, name) in names.iter().enumerate() {
             let mut entries = vec![];
+            let mut pre_lets = vec![];
+            if i == cut {
+                pre_lets.push(("x".to_string(), g.gen_nonnull(1)));
+            }
             // local binding `x` differs per set
             let local = g.gen_nonnull(1);
-            let has_local = g.rng.chance(4, 5);
+            let has_local = i < cut && g.rng.chance(4, 5);
             if has_local {
                 entries.push(Entry::Let("x".to_string(), local));
             }
+            let x_visible = has_local || i >= cut;
             // a second local that refers to the first and to the top-level one
-            let has_y = has_local && g.rng.chance(1, 2);
+            let has_y = x_visible && g.rng.chance(1, 2);
             if has_y {
                 entries.push(Entry::Let(
                     "y".to_string(),
@@ -1150,7 +1162,7 @@ fn gen_scope_spec(g: &mut Gen) -> Spec {
                 )]),
             };
             let next = names[(i + 1) % names.len()].clone();
-            if has_local {
+            if x_visible {
                 entries.push(Entry::Rule(mk(Re::cat(Re::var("x"), Re::Chr('c')), Some(next.clone()), 1)));
             }
             if has_y {
@@ -1159,6 +1171,7 @@ fn gen_scope_spec(g: &mut Gen) -> Spec {
             entries.push(Entry::Rule(mk(Re::cat(Re::var("t"), g.gen_atom()), Some(next.clone()), 3)));
             entries.push(Entry::Rule(mk(g.gen_nonnull(1), Some(next), 4)));
             sets.push(RuleSet {
+                pre_lets,
                 name: name.clone(),
                 entries,
             });
@@ -1352,14 +1365,17 @@ fn gen_realistic_spec(g: &mut Gen) -> Spec {
         lets,
         sets: vec![
             RuleSet {
+                pre_lets: vec![],
                 name: "Init".into(),
                 entries: init,
             },
             RuleSet {
+                pre_lets: vec![],
                 name: "Str".into(),
                 entries: strs,
             },
             RuleSet {
+                pre_lets: vec![],
                 name: "Cmt".into(),
                 entries: cmt,
             },
